@@ -1095,6 +1095,70 @@ func runNetErr(e int, temporary bool, k int, token string) (ob NetErrObs, failur
 }
 
 // ---------------------------------------------------------------------------
+// The retry budget is per export: an exporter that has existed for longer than its MaxElapsedTime (150-300 ms)
+// exports twice, idle for MaxElapsedTime + 100 ms before each export; each export gets a retry-able reply, then
+// success.  Precondition (else inconclusive): each export itself took less than half of MaxElapsedTime.
+// ---------------------------------------------------------------------------
+
+type AgedObs struct {
+	Attempts [2]int    `json:"attempts"`
+	ErrClass [2]int    `json:"err_class"`
+	Err      [2]string `json:"err"`
+	Elapsed  [2]int64  `json:"elapsed_ns"`
+}
+
+func runAged(e int, maxElapsed time.Duration, token string) (ob AgedObs, failure string, inconclusive string) {
+	defer func() {
+		if r := recover(); r != nil {
+			failure = fmt.Sprintf("panic: %v", r)
+		}
+	}()
+	sc := &Scenario{Exporter: e, Enabled: true, Initial: time.Millisecond, MaxElapsed: maxElapsed, CancelAt: -1, ShutdownAt: -1, Token: token}
+	if isHTTP(e) {
+		sc.Script = []Resp{{Status: 503}, {Status: 200}, {Status: 502}, {Status: 200}}
+	} else {
+		sc.Script = []Resp{{Code: 14}, {Code: 0}, {Code: 14}, {Code: 0}}
+	}
+	c := &collector{sc: sc, start: time.Now()}
+	endpoint, stop, err := startCollector(c)
+	if err != nil {
+		return ob, "collector: " + err.Error(), ""
+	}
+	defer stop()
+	x, err := mkExporter(e, endpoint, sc)
+	if err != nil {
+		return ob, "exporter construction: " + err.Error(), ""
+	}
+	count := func() int { c.mu.Lock(); defer c.mu.Unlock(); return len(c.arrivals) }
+	for i := 0; i < 2; i++ {
+		time.Sleep(maxElapsed + 100*time.Millisecond) // the client is now older than its retry budget / idle for longer than it
+		before := count()
+		done := make(chan error, 1)
+		t0 := time.Now()
+		go func() { done <- x.export(context.Background()) }()
+		var eerr error
+		select {
+		case eerr = <-done:
+		case <-time.After(30 * time.Second):
+			return ob, "export did not return within 30 s (watchdog)", ""
+		}
+		ob.Elapsed[i] = int64(time.Since(t0))
+		ob.Attempts[i] = count() - before
+		ob.ErrClass[i] = errClass(eerr)
+		if eerr != nil {
+			ob.Err[i] = eerr.Error()
+		}
+		if time.Duration(ob.Elapsed[i]) > maxElapsed/2 {
+			inconclusive = "an export needed more than half of MaxElapsedTime of wall clock: its own budget may legitimately have run out"
+		}
+	}
+	sctx, scancel := context.WithTimeout(context.Background(), 5*time.Second)
+	x.shutdown(sctx)
+	scancel()
+	return ob, "", inconclusive
+}
+
+// ---------------------------------------------------------------------------
 // generators
 // ---------------------------------------------------------------------------
 
@@ -1397,6 +1461,30 @@ func main() {
 		}(i, tc)
 	}
 
+	// aged clients (the retry budget is per export): started now, collected later
+	type agedCase struct {
+		e   int
+		max time.Duration
+	}
+	var agedCases []agedCase
+	ar := r.Fork()
+	for e := 0; e < 6; e++ {
+		for rep := 0; rep < 2; rep++ {
+			agedCases = append(agedCases, agedCase{e, time.Duration(150+ar.Intn(151)) * time.Millisecond})
+		}
+	}
+	agedObs := make([]AgedObs, len(agedCases))
+	agedFail := make([]string, len(agedCases))
+	agedIncon := make([]string, len(agedCases))
+	var awg sync.WaitGroup
+	for i, ac := range agedCases {
+		awg.Add(1)
+		go func(i int, ac agedCase) {
+			defer awg.Done()
+			agedObs[i], agedFail[i], agedIncon[i] = runAged(ac.e, ac.max, fmt.Sprintf("agk%04dx", i))
+		}(i, ac)
+	}
+
 	// Shutdown with an expired context during a retry loop: started now, collected at the end (each takes ~1.7 s)
 	type shutCase struct{ e, variant int }
 	var shutCases []shutCase
@@ -1579,6 +1667,28 @@ func main() {
 			vgen.Bool(ob.ExportReturned), vgen.N(uint64(ob.ExportErrClass)), vgen.Nat(ob.Late), vgen.N(uint64(ob.LaterErrClass)))
 		w.Tally("shutdown-expired:" + exporterNames[sc.e])
 		w.Add(term, desc, "shutdown-expired-ctx-"+exporterNames[sc.e], true)
+	}
+	awg.Wait()
+	for i, ac := range agedCases {
+		if agedFail[i] != "" || agedIncon[i] != "" {
+			w.Tally("rerun-sequentially")
+			agedObs[i], agedFail[i], agedIncon[i] = runAged(ac.e, ac.max, fmt.Sprintf("agr%04dx", i))
+		}
+		desc := map[string]any{"exporter": exporterNames[ac.e], "max_elapsed": ac.max, "observed": agedObs[i]}
+		if agedFail[i] != "" {
+			w.Violation(agedFail[i], desc)
+			continue
+		}
+		if agedIncon[i] != "" {
+			inconclusive++
+			w.Tally("inconclusive:aged-client")
+			continue
+		}
+		ob := agedObs[i]
+		term := vgen.App("CAged", vgen.N(uint64(ac.e)), vgen.Z(int64(ac.max)), vgen.Nat(ob.Attempts[0]), vgen.N(uint64(ob.ErrClass[0])),
+			vgen.Nat(ob.Attempts[1]), vgen.N(uint64(ob.ErrClass[1])))
+		w.Tally("aged-client:" + exporterNames[ac.e])
+		w.Add(term, desc, "aged-client-"+exporterNames[ac.e], true)
 	}
 	// transport errors: k temporary errors then success; non-temporary: final
 	for e := 0; e < 3; e++ {
